@@ -53,7 +53,7 @@ type IVal struct {
 	NonNil bool
 	Lo, Hi int64 // ivSlice: window into the backing array
 	M      map[string]IVal
-	MZero  *IVal // ivMap: the zero value of the element type
+	MZero  *IVal         // ivMap: the zero value of the element type
 	F      *ssa.Function // a function value (K == ivOpaque, NonNil): the function it denotes
 }
 
